@@ -51,9 +51,11 @@ def h_rule(name: str, n: int):
             rv = fo.rule_value(c, name, z)
             c.oblige("value = named rule", v == rv, info={**info, "claim": "rule"}, tol=approx(v, rv))
             c.oblige("value > 0", v > 0, info={**info, "claim": "pos"})
-            if name in MEANS:
+            hard = name == "gmean" and n >= 5  # AM-GM-type inequalities of degree 5, 6: z3 does not finish within minutes - not claimed
+            if name in MEANS and not hard:
                 c.oblige("min <= mean", _mn(z) <= v, info={**info, "claim": "minmax"})
                 c.oblige("mean <= max", v <= _mx(z), info={**info, "claim": "minmax"})
+            if name in MEANS:
                 if n >= 2:
                     for (i, j) in ([(0, 1), (0, n - 1)] if n > 2 else [(0, 1)]):
                         p = list(s)
@@ -61,7 +63,7 @@ def h_rule(name: str, n: int):
                         out2 = apply_constraint(name, *p)
                         c.oblige(f"symmetric under swap({i},{j})", out2[0] == out[0], info={**info, "claim": "sym"})
                     c.oblige("control: mean equals first scale (must be sat)", v == z[0], kind="control")
-            if name == "gmean":
+            if name == "gmean" and not hard:
                 hm = apply_constraint("hmean", *s)[0]
                 am = apply_constraint("amean", *s)[0]
                 c.oblige("hmean <= gmean", hm.z <= v, info={**info, "claim": "order"})
@@ -237,7 +239,9 @@ def run(rep: Report, only: str = "") -> None:
     rep.functions = fo.encoded_functions() + [describe_function(getattr(uc, n)) for n in
                                              ("to_output_scale", "to_grad_input_scale", "to_left_grad_scale", "to_right_grad_scale")]
     common_meta(rep)
-    rep.bounds["rules"] = f"apply_constraint + rule functions with n = 1..{6 if thorough else 4} symbolic scales in [1e-6, 1e6]; n = 5, 6 only in the thorough tier"
+    rep.bounds["rules"] = (f"apply_constraint + rule functions with n = 1..{6 if thorough else 4} symbolic scales in [1e-6, 1e6]; n = 5, 6 only in the thorough tier; "
+                           "for the geometric mean with n = 5, 6 only the equalities (all outputs equal, value = n-th root of the product, symmetry) are decided: "
+                           "min <= gmean <= max and hmean <= gmean <= amean of degree 5, 6 exceed z3's reach (minutes) and are NOT claimed for n >= 5")
     rep.bounds["names"] = "unknown-name clause: one symbolic path for a name outside the module namespace; names inside the namespace enumerated by reflection (labelled enumeration)"
     rep.bounds["true-derivative"] = ("forward factor = constrained gradient factors proved for all shapes in opaque mode, i.e. the library gradient is the reference vjp "
                                      "of the same expression times the same scalar; finite-difference agreement is a consequence, not separately computed")
